@@ -16,6 +16,7 @@ import (
 	"hash/fnv"
 	"io"
 	"math"
+	"strings"
 
 	"verif/internal/lzwork"
 	"verif/internal/ref/lzref"
@@ -23,7 +24,8 @@ import (
 )
 
 type params struct {
-	Kind string `json:"kind"` // regress | mutate | random | syms
+	Kind string `json:"kind"`           // regress | mutate | random | syms
+	Mode string `json:"mode,omitempty"` // mutate: b2 | raw
 	Lo   int    `json:"lo,omitempty"`
 	Hi   int    `json:"hi,omitempty"`
 	N    int    `json:"n,omitempty"`
@@ -68,23 +70,24 @@ var Check = &vrt.Check{
 
 func plan(seed int64, tier string) []vrt.Case {
 	var cs []vrt.Case
+	nBase, nRand, timeout := 40, 60, 240
+	if tier == "thorough" {
+		nBase, nRand, timeout = 900, 1500, 600
+	}
 	add := func(id string, p params) {
 		p.Seed = seed
-		cs = append(cs, vrt.Case{ID: id, Params: vrt.MustParams(p), TimeoutS: 600})
-	}
-	nBase, nRand := 40, 60
-	if tier == "thorough" {
-		nBase, nRand = 900, 1500
+		cs = append(cs, vrt.Case{ID: id, Params: vrt.MustParams(p), TimeoutS: timeout})
 	}
 	add("regress", params{Kind: "regress"})
 	for i := 0; i < nBase; i++ {
-		add(fmt.Sprintf("mutate-%d", i), params{Kind: "mutate", Lo: i, Hi: i + 1, N: nBase})
+		add(fmt.Sprintf("mutate-%d-b2", i), params{Kind: "mutate", Mode: "b2", Lo: i, Hi: i + 1, N: nBase})
+		add(fmt.Sprintf("mutate-%d-raw", i), params{Kind: "mutate", Mode: "raw", Lo: i, Hi: i + 1, N: nBase})
 	}
 	for i := 0; i < nRand; i++ {
 		add(fmt.Sprintf("random-%d", i), params{Kind: "random", Lo: i})
 		add(fmt.Sprintf("syms-%d", i), params{Kind: "syms", Lo: i})
 	}
-	return cs
+	return lzwork.LeadWithOneOfEach(cs, func(c vrt.Case) string { return strings.SplitN(c.ID, "-", 2)[0] })
 }
 
 // ---------------------------------------------------------------------------------------------
@@ -433,13 +436,13 @@ func baseSpecs(seed int64, n int) []lzwork.Spec {
 	return out[:n]
 }
 
-func (c *ctx) mutate(idx int, specs []lzwork.Spec) {
+func (c *ctx) mutate(idx int, specs []lzwork.Spec, mode string) {
 	sp := specs[idx]
 	in := sp.Bytes()
 	other := specs[(idx+1)%len(specs)].Bytes()
 	r := vrt.Rand(c.seed, "c08-mutate", idx)
 	n := int64(len(in))
-	for _, crc := range []bool{true, false} {
+	for _, crc := range []bool{mode == "b2"} {
 		s := stream(in, crc)
 		name := sp.String()
 		c.o.Count("base_streams", 1)
@@ -519,7 +522,7 @@ func (c *ctx) mutate(idx int, specs []lzwork.Spec) {
 			}
 		}
 	}
-	c.o.Sample = map[string]any{"kind": "mutate", "base_input": sp.String(), "base_input_bytes": len(in), "mutations": []string{"valid", "truncated-to-k", "bitflip-i.b", "bitflip+crc", "size=x", "crc+d", "overrun-by-d-of-L", "trailing-n", "splice", "delete", "insert"}}
+	c.o.Sample = map[string]any{"kind": "mutate", "header_mode": mode, "base_input": sp.String(), "base_input_bytes": len(in), "mutations": []string{"valid", "truncated-to-k", "bitflip-i.b", "bitflip+crc", "size=x", "crc+d", "overrun-by-d-of-L", "trailing-n", "splice", "delete", "insert"}}
 }
 
 func (c *ctx) regress() {
@@ -694,8 +697,8 @@ func run(cs vrt.Case) vrt.Obs {
 	case "mutate":
 		specs := baseSpecs(p.Seed, p.N)
 		for i := p.Lo; i < p.Hi; i++ {
-			c.j = uint64(i) * 7
-			c.mutate(i, specs)
+			c.j = uint64(i)*7 + uint64(len(p.Mode))
+			c.mutate(i, specs, p.Mode)
 		}
 	case "random":
 		c.j = uint64(p.Lo) * 3
